@@ -42,7 +42,8 @@ var (
 	ErrGetVarpInvalidDtype         = errors.New("getVarp: invalid data type")
 )
 
-func ReadSegStats(segkey string, qid uint64) (map[string]*structs.SegStats, error) {
+func ReadSegStats(segkey string, qid uint64) (_ map[string]*structs.SegStats, panicErr error) {
+	defer utils.RecoverToError(&panicErr, "ReadSegStats: "+segkey)
 
 	retVal := make(map[string]*structs.SegStats)
 	fName := fmt.Sprintf("%v.sst", segkey)
